@@ -520,6 +520,7 @@ pub fn run_main(args: &Args) -> i32 {
     let mut violations: Vec<(Tier, Value)> = vec![];
     let mut samples = vec![];
     let mut inconclusive = vec![];
+    let mut discarded = vec![];
     for p in &phases {
         let mut t = Totals::default();
         let mut sampled_classes = BTreeSet::new();
@@ -530,6 +531,14 @@ pub fn run_main(args: &Args) -> i32 {
                 "violation" => violations.push((p.tier, r.clone())),
                 "harness_error" => harness_errors.push(r.get("note").and_then(Value::as_str).unwrap_or("").to_owned()),
                 "inconclusive" => inconclusive.push(json!({"tier": p.tier.name(), "group": r.get("idx"), "note": r.get("note")})),
+                "skipped_divergent" | "skipped_resource" => {
+                    if discarded.len() < 40 {
+                        discarded.push(json!({
+                            "tier": p.tier.name(), "group": r.get("idx"), "family": r.get("family"),
+                            "why": r.get("status"), "note": r.get("note"), "form": r.get("form"),
+                        }));
+                    }
+                }
                 _ => {}
             }
             if r.get("nontrivial").and_then(Value::as_bool).unwrap_or(false) && samples.len() < 12 {
@@ -672,6 +681,7 @@ pub fn run_main(args: &Args) -> i32 {
             "inproc_canary_distinct_outputs": ip_distinct,
         },
         "inconclusive_groups": inconclusive,
+        "discarded_groups": discarded,
         "violations_found": violations_total,
         "violation_signatures": seen_signatures,
         "components": {
